@@ -61,7 +61,7 @@ def subtree(c):
 
 def top(c):
     seen = 0
-    while c.parent is not c and seen < 50:
+    while c.parent is not c and seen < 100000:     # (a bound only against a parent cycle; forests of the thorough tier are 60 deep)
         c = c.parent
         seen += 1
     return c
